@@ -134,6 +134,10 @@ def run(tier, seed, build):
                 ev(pn, r, "base under a single-component pre-load")
                 ev(swap_pd(pn), swap_req(r), "axis-exchanged partner under the exchanged pre-load")
         ev(scale_pd(pd, Fraction(2), Fraction(3), Fraction(5)), r, "similar partner (s=2, e=3, q=5)")
+        # another consistent unit system (mm / GPa-like, masses far down): every entry far from 1 (nothing in the code may depend on absolute size)
+        for qk in sorted({"k0", "kM", r["q"]}):     # stiffness and mass always, besides the kind the enumerated request asked for
+            ev(scale_pd(pd, Fraction(1000), Fraction(1, 10 ** 9), Fraction(1, 10 ** 29)), dict(r, q=qk),
+               "similar partner in a far unit system (s=1e3, e=1e-9, q=1e-29)")
         if r["q"] == "k0" and pd["model"] in ("plate", "cpanel") and fr(pd["y1"]) == 0 and fr(pd["y2"]) == fr(pd["b"]):
             rn = dict(r, num=[pd["m"] + 3, pd["n"] + 3])
             ev(pd, rn, "numerically integrated kernel at the undeformed state", tol=34)
@@ -165,10 +169,12 @@ def run(tier, seed, build):
             la, oa = eig_lists(pe, N)
             lb_, ob = eig_lists(swap_pd(pe), [N[1], N[0], N[2]])
             lc, oc = eig_lists(scale_pd(pe, s, e, q), N)
+            ld, od = eig_lists(scale_pd(pe, Fraction(1000), Fraction(1, 10 ** 9), Fraction(1, 10 ** 29)), N)
         except ValueError:
             continue          # fewer active amplitudes than eigenpairs requested: the dense wrapper's limit is C05's finding
         for nm, a, b, f in (("buckling, axis exchange", la, lb_, Fraction(1)), ("frequency, axis exchange", oa, ob, Fraction(1)),
-                            ("buckling, similarity e*s", lc, la, e * s), ("frequency, similarity sqrt(e/q)/s", oc, oa, Fraction(3, 4))):
+                            ("buckling, similarity e*s", lc, la, e * s), ("frequency, similarity sqrt(e/q)/s", oc, oa, Fraction(3, 4)),
+                            ("buckling, far unit system", ld, la, Fraction(1, 10 ** 6)), ("frequency, far unit system", od, oa, Fraction(10 ** 7))):
             if len(a) != len(b) or not a:
                 if nm.startswith("buckling") and len(a) != len(b):
                     rep.violation("eigenvalues: %s: the two descriptions have different numbers of finite positive multipliers"
